@@ -350,7 +350,7 @@ pub fn check(mut ctx: Ctx, replay: Option<J>) -> ! {
   }
   // run everything in child processes
   let inputs: Vec<J> = recs.iter().map(|r| json!({"text": r["text"]})).collect();
-  let results = run_in_children("c05", &tlc.work_dir, &inputs, 14, Duration::from_secs(20));
+  let results = run_in_children("c05", &tlc.work_dir, &inputs, 14, Duration::from_secs(90));
   let mut calls = 0u64;
   // documents given up after the death budget of the child runner was spent are not judged
   let skipped: Vec<bool> = results.iter().map(|r| r["skipped"] == true).collect();
@@ -393,7 +393,7 @@ pub fn check(mut ctx: Ctx, replay: Option<J>) -> ! {
     // every TLC document, the corpus, and a fifth of the mutated ones
     let subset: Vec<usize> = (0..recs.len()).filter(|i| recs[*i]["src"] != "mut" || i % 5 == 0).collect();
     let rin: Vec<J> = subset.iter().map(|i| json!({"text": recs[*i]["text"]})).collect();
-    let rres = run_in_children("c05", &tlc.work_dir, &rin, 14, Duration::from_secs(20));
+    let rres = run_in_children("c05", &tlc.work_dir, &rin, 14, Duration::from_secs(90));
     std::env::remove_var("VERIF_CHILD_EXE");
     for (k, i) in subset.iter().enumerate() {
       let res = &rres[k];
